@@ -188,7 +188,9 @@ impl<'a, I: Iterator<Item = Item>, F: StreamFilter + 'a> Iterator for Compaction
 
                     // NOTE: Only item of this key and thus latest version, so return it no matter what
                     // ...
-                } else if peeked.key.seqno < self.gc_seqno_threshold {
+                } else if head.key.seqno <= self.gc_seqno_threshold {
+                    // NOTE: The older versions of a key can only go if the version shadowing them (head)
+                    // is itself visible to every snapshot above the watermark
                     if head.key.value_type == ValueType::Tombstone && self.evict_tombstones {
                         fail_iter!(self.drain_key(&head.key.user_key));
                         continue;
